@@ -303,7 +303,13 @@ Proof.
     + intros a. unfold ref_at. simpl. destruct (_ && _); reflexivity.
     + destruct kwds2; simpl; [rewrite app_nil_r|]; reflexivity.
   - apply all_str_cons in AS as [S AS]. simpl in S. apply keys_nodup_cons in KN as [KH KN].
-    simpl parse_ref. simpl existsb. simpl filter. unfold kw_bad at 1 3, kw_dup, kw_unknown at 1 2 4.
+    simpl parse_ref. simpl existsb. simpl filter. simpl fst.
+    assert (HB : forall st, kw_bad names first st k =
+                 match midx k names with Some i => negb (first <=? i) | None => st end).
+    { intros st. unfold kw_bad, kw_dup, kw_unknown.
+      destruct (midx k names); [rewrite andb_false_r, orb_false_r; reflexivity|simpl; rewrite andb_true_r; reflexivity]. }
+    assert (HU : kw_unknown names k = match midx k names with Some _ => false | None => true end) by reflexivity.
+    rewrite HB, HU.
     destruct (midx k names) as [i|] eqn:M.
     + destruct (first <=? i) eqn:C; simpl; [|split; [discriminate|reflexivity]].
       assert (DJ' : forall d, kwds2 = Some d -> forall kv kv', In kv rest -> In kv' d -> key_same (fst kv') (fst kv) = false)
